@@ -25,7 +25,7 @@ RULE = ("warm/cold differential over recorded call histories: ctor-from-string, 
         "after an option toggle")
 ANCHORS = ['str_to_bitstore', 'tokenparser', 'preprocess_tokens', 'parse_name_length_token', 'parse_single_struct_token',
            'parse_single_token', 'Dtype._new_from_token', 'Dtype._create', 'Options.set_lsb0', 'pack', 'Bits._readlist']
-REQUIRED_OPS = ['ctor', 'fromstring', 'ctor-kw', 'prop-assign', 'pack', 'unpack', 'readlist', 'unpack-dtypes', 'combine-mutate', 'dtype-from-dtype', 'dtype', 'array-dtype', 'toggle', 'mutate-earlier']
+REQUIRED_OPS = ['ctor', 'fromstring', 'ctor-kw', 'prop-assign', 'pack', 'unpack', 'readlist', 'unpack-dtypes', 'combine-mutate', 'dtype-from-dtype', 'dtype', 'array-dtype', 'toggle', 'mutate-earlier', 'print']
 MIN_EVALS = {'quick': 2000, 'thorough': 40000}
 PINNED_CACHES = ['str_to_bitstore', '_str_to_bitstore', 'tokenparser', 'preprocess_tokens', 'parse_name_length_token',
                  'parse_single_struct_token', 'parse_single_token', '_new_from_token', '_create']
@@ -175,6 +175,15 @@ def run_call(c, keep=None):
         if kind == 'array-dtype':
             a = Array(c['tok'], c['items'])
             return ['ok', [str(a.dtype), a.itemsize, a.data.bin if len(a.data) else '']]
+        if kind == 'print':
+            # printing (which may fail half way): what it wrote, and - judged by the caller - the options afterwards
+            import io
+            sink = io.StringIO()
+            if c.get('closed'):
+                sink.close()
+            o = Array(c['tok'], c['items']) if c['what'] == 'array' else Bits(bin=c['data'])
+            o.pp(c['fmt'], stream=sink, width=c.get('width', 60))
+            return ['ok', sink.getvalue()]
         if kind == 'find':
             r = Bits(bin=c['data']).find(c['s'])
             return ['ok', list(r)]
@@ -287,7 +296,7 @@ def gen_history(ctx, n):
             hist.append({'kind': 'mutate-earlier', 'how': rng.choice(['invert', 'append', 'tobitarray-invert', 'clear', 'derive', 'array-data']),
                          'opts': list(opts)})
             continue
-        k = rng.choice(['ctor', 'ctor', 'ctor', 'ctor', 'fromstring', 'pack', 'pack', 'unpack', 'readlist', 'dtype', 'dtype', 'array-dtype', 'array-dtype', 'find',
+        k = rng.choice(['ctor', 'ctor', 'ctor', 'ctor', 'fromstring', 'pack', 'pack', 'unpack', 'readlist', 'dtype', 'dtype', 'array-dtype', 'array-dtype', 'find', 'print',
                         'ctor-kw', 'ctor-kw', 'prop-assign', 'unpack-dtypes', 'combine-mutate', 'dtype-from-dtype'])
         if k in ('ctor', 'fromstring'):
             c = {'kind': k, 'cls': rng.choice(['Bits', 'BitArray', 'ConstBitStream', 'BitStream']), 's': nxt('str', strs)}
@@ -298,6 +307,11 @@ def gen_history(ctx, n):
                 c['s'] = respell(rng, c['s'])
             elif r2 < 0.25:
                 c['s'] = rng.choice(EMPTY_SPELLINGS)
+        elif k == 'print':
+            c = {'kind': k, 'what': rng.choice(['array', 'array', 'bits']), 'tok': rng.choice(['uint6', 'uint8', 'int4', 'float16', 'hex4', 'bool', 'e4m3mxfp', 'uint12']),
+                 'items': rng.choice([[1, 2, 3], [0], [], [1, 0, 1, 1, 0, 1, 0, 0, 1]]), 'data': rbits(rng.choice([0, 7, 24, 61])),
+                 'fmt': rng.choice(['hex', 'bin', 'uint8', 'float', 'bytes', 'ue', 'hex, bin', 'u6', 'nonsense', 'bin:3', 'i4', 'bool', 'float16']),
+                 'closed': rng.random() < 0.25, 'width': rng.choice([60, 20, 0])}
         elif k == 'combine-mutate':
             c = {'kind': k, 'cls': rng.choice(['BitArray', 'BitStream']), 's': strs[rng.randrange(12)] if rng.random() < 0.6 else nxt('str', strs),
                  'how': rng.choice(['empty+str', 'str+empty', 'empty.append', 'empty.prepend', 'empty+=', 'join', 'empty|=', 'ctor', 'ctor', 'ctor-auto-kw'])}
@@ -363,7 +377,15 @@ def warm_pass(ctx, hist):
     from bitstring import Array, BitArray
     kept = []
     out = []
+    last = None
     for c in hist:
+        if last is not None:
+            # nobody but this loop sets options: what is in force now is what was set before the previous call
+            o = bitstring.options
+            now = [o.lsb0, o.bytealigned, o.mxfp_overflow]
+            if now != last[0]:
+                ctx.mismatch(f'C09|options-changed-by-call|{last[1]}', {'call': last[2], 'opts_set': last[0]}, f'options were {last[0]}, are {now} after a {last[1]} call')
+        last = [list(c['opts']), c['kind'], {k: v for k, v in c.items() if k != 'data'}]
         set_opts(c['opts'])
         if c['kind'] == 'toggle':
             ctx.op('toggle')
